@@ -36,8 +36,10 @@ def _whitelist(ctx):
     the members / keys of the module-level constant it is tested against"""
     fn = ctx.func('rawx12file', 'RawX12File.__init__')
     modc = A.module_constants(ctx.mod('rawx12file').tree)
+    # (the version tested is the one kept in self.icvn: the attribute itself or the expression / local stored into it)
+    same = {'self.icvn'} | {norm(st.value) for st in ast.walk(fn) if isinstance(st, ast.Assign) and any(path_of(t) == 'self.icvn' for t in st.targets)}
     for n in ast.walk(fn):
-        if isinstance(n, ast.Compare) and isinstance(n.ops[0], (ast.NotIn, ast.In)) and path_of(n.left) == 'self.icvn':
+        if isinstance(n, ast.Compare) and isinstance(n.ops[0], (ast.NotIn, ast.In)) and norm(n.left) in same:
             c = n.comparators[0]
             if isinstance(c, (ast.Tuple, ast.List, ast.Set)):
                 return {A.const(x) for x in c.elts}
@@ -161,7 +163,7 @@ def dispatch_labels(ctx):
     body = trys[0].body if trys else fn.body
     labels = set()
     prefix = set()
-    for lab, b, extra, node in A.branch_chain(body, lambda e: norm(e) in ('data_type', 'data_type[0]')):
+    for lab, b, extra, node in A.branch_chain_all(ast.Module(body=body, type_ignores=[]), lambda e: norm(e) in ('data_type', 'data_type[0]')):
         if lab in (None, '?'):
             continue
         # label compared with data_type[0] is a prefix label
@@ -405,49 +407,105 @@ def r5_walker_wiring(ctx):
         ok = 'MAXINT' in ast.unparse(fn) and ('int(self.%s)' % attr) in ast.unparse(fn) and "'>1'" in ast.unparse(fn)
         require_idiom(ok, 'c02.py:369')
         yield Ob('map_if:%s.get_max_repeat: absent or ">1" is unlimited, otherwise the declared integer' % cls, ok, ctx.floc(fn), '' if ok else 'limit parsing changed')
-    # --- the counter itself
+    # --- the counter itself, decided by constant propagation: a table from path to count driven through a history of
+    # increments, reads and resets - an unseen path reads 0, each increment adds one to that path alone, a reset to a
+    # node drops exactly the counts strictly below it (the node's own count and everything beside or above it stay)
+    from ..absint import explore as _explore, run_function as _run, helper_oracles as _ho, NotClosedTest as _NCT
+
+    class _PK(object):
+        _sa_model = True
+
+        def __init__(self, text):
+            self.text = text
+
+        def format(self):
+            return self.text
+
+        def is_child_path(self, child):
+            r, c = self.text.split('/'), child.split('/')
+            return len(c) > len(r) and c[:len(r)] == r
+
+        def __hash__(self):
+            return hash(self.text)
+
+        def __eq__(self, o):
+            return isinstance(o, _PK) and o.text == self.text
+
+        def __repr__(self):
+            return self.text
+    mk = lambda x: x if isinstance(x, _PK) else _PK(x)
+    nfuncs = _ho(ctx, 'nodeCounter', {'NodeCounter.makeX12Path': mk, 'self.makeX12Path': mk, 'makeX12Path': mk, 'pyx12.path.X12Path': mk, 'path.X12Path': mk})
+
+    def step(meth, table, arg):
+        fn_ = ctx.func('nodeCounter', 'NodeCounter.' + meth)
+        g__ = ctx.cfg(fn_)
+        fin = []
+
+        def on_node(nd, e):
+            if nd is g__.exit:
+                fin.append(e.get('self._dict'))
+
+        def unk(nd, e):
+            raise AnalysisError('nodeCounter:NodeCounter.%s cannot be decided: %s' % (meth, norm(nd.ast)))
+        _explore(g__, {'self._dict': A.FrozenDict(table), 'xpath': arg}, funcs=nfuncs, on_node=on_node, on_unknown=unk)
+        fin = [f for i, f in enumerate(fin) if f not in fin[:i]]
+        if len(fin) != 1 or not isinstance(fin[0], dict):
+            raise AnalysisError('nodeCounter:NodeCounter.%s: the table after the call is not determined (%d outcomes)' % (meth, len(fin)))
+        return dict(fin[0])
+
+    def read(table, arg):
+        fn_ = ctx.func('nodeCounter', 'NodeCounter.get_count')
+        try:
+            return _run(ctx.cfg(fn_), fn_, [None, arg], nfuncs, env={'self._dict': A.FrozenDict(table)})
+        except (_NCT, A.NotClosed) as e:
+            raise AnalysisError('nodeCounter:NodeCounter.get_count cannot be decided: %s' % e)
+    bad = {'get_count': [], 'increment': [], 'reset_to_node': []}
+    table, model = {}, {}
+    history = [('increment', '/A'), ('increment', '/A'), ('increment', '/A/B'), ('increment', '/A/B/C'), ('increment', '/A/B/C/D'), ('increment', '/A/BB'),
+               ('increment', '/A/B/C'), ('reset_to_node', '/A/B'), ('increment', '/A/B/C'), ('reset_to_node', '/A'), ('increment', '/X'),
+               ('reset_to_node', '/A/B/C')]
+    for meth, arg in history:
+        table = step(meth, table, arg)
+        if meth == 'increment':
+            model[arg] = model.get(arg, 0) + 1
+        else:
+            model = {k: v for k, v in model.items() if not _PK(arg).is_child_path(k)}
+        got = {k.text if isinstance(k, _PK) else k: v for k, v in table.items()}
+        if got != model and not bad[meth]:
+            bad[meth].append('after %s(%s) the counts are %s, expected %s' % (meth, arg, sorted(got.items()), sorted(model.items())))
+            table = {_PK(k): v for k, v in model.items()}
+        for probe in ('/A', '/A/B', '/A/B/C', '/NEVER'):
+            r = read(table, probe)
+            if r != model.get(probe, 0) and not bad['get_count']:
+                bad['get_count'].append('get_count(%s) is %r with the counts %s' % (probe, r, sorted(model.items())))
     fn = ctx.func('nodeCounter', 'NodeCounter.get_count')
-    ok = any(isinstance(n, ast.Return) and (A.const(n.value) == 0 or (
-        isinstance(n.value, ast.Call) and A.call_target(n.value) == ('self._dict', 'get') and len(n.value.args) == 2 and A.const(n.value.args[1]) == 0))
-        for n in ast.walk(fn))
-    yield Ob('nodeCounter:NodeCounter.get_count is 0 for an unseen path', ok, ctx.floc(fn), '' if ok else 'default changed')
+    yield Ob('nodeCounter:NodeCounter.get_count is 0 for an unseen path', not bad['get_count'], ctx.floc(fn), '' if not bad['get_count'] else bad['get_count'][0])
     fn = ctx.func('nodeCounter', 'NodeCounter.increment')
-    txt = ast.unparse(fn)
-    ok = ('self._dict[k] += 1' in txt and 'self._dict[k] = 1' in txt) or 'self._dict[k] = self._dict.get(k, 0) + 1' in txt
-    require_idiom(ok, 'c02.py:377')
-    yield Ob('nodeCounter:NodeCounter.increment counts from 1 in steps of 1', ok, ctx.floc(fn), '' if ok else 'increment changed')
+    yield Ob('nodeCounter:NodeCounter.increment counts from 1 in steps of 1', not bad['increment'], ctx.floc(fn), '' if not bad['increment'] else bad['increment'][0])
     fn = ctx.func('nodeCounter', 'NodeCounter.reset_to_node')
-    txt = A.alpha_text(fn)
-    ok = 'L2 = [L3 for L3 in self._dict if L1.is_child_path(L3.format())]' in txt and 'for L4 in L2:\n        del self._dict[L4]' in txt
-    if not ok:
-        # the same with the list inlined into the loop header and/or the bound method held in a local:
-        #   for k in [k for k in self._dict if <node path>.is_child_path(k.format())]: del self._dict[k]
-        alias = {path_of(st.targets[0]) for st in ast.walk(fn) if isinstance(st, ast.Assign) and isinstance(st.value, ast.Attribute)
-                 and st.value.attr == 'is_child_path' and 'xpath' in norm(st.value)}
-        dels = [d for d in ast.walk(fn) if isinstance(d, ast.Delete)]
-        loops = [lp for lp in ast.walk(fn) if isinstance(lp, ast.For) and isinstance(lp.iter, ast.ListComp) and isinstance(lp.target, ast.Name)
-                 and path_of(lp.iter.generators[0].iter) == 'self._dict' and len(lp.iter.generators[0].ifs) == 1
-                 and isinstance(lp.iter.elt, ast.Name) and lp.iter.elt.id == path_of(lp.iter.generators[0].target)]
-        if len(loops) == 1 and len(dels) == 1 and loops[0].body == [dels[0]] and norm(dels[0]) == 'del self._dict[%s]' % loops[0].target.id:
-            c = loops[0].iter.generators[0].ifs[0]
-            v = loops[0].iter.elt.id
-            if isinstance(c, ast.Call) and len(c.args) == 1 and norm(c.args[0]) == '%s.format()' % v and (
-                    (isinstance(c.func, ast.Name) and c.func.id in alias) or
-                    (isinstance(c.func, ast.Attribute) and c.func.attr == 'is_child_path' and 'xpath' in norm(c.func.value))):
-                ok = True
-    require_idiom(ok, 'c02.py:381')
-    yield Ob('nodeCounter:NodeCounter.reset_to_node drops exactly the counts below the node', ok, ctx.floc(fn), '' if ok else 'reset changed')
+    yield Ob('nodeCounter:NodeCounter.reset_to_node drops exactly the counts below the node', not bad['reset_to_node'], ctx.floc(fn),
+             '' if not bad['reset_to_node'] else bad['reset_to_node'][0])
     fn = ctx.func('path', 'X12Path.is_child_path')
     # decided by constant propagation through is_child_path (and any helper it was split into) on concrete path pairs:
     # a strict descendant is a child; the path itself, an ancestor, a sibling with a common text prefix and a foreign path are not
     from ..absint import run_function, helper_oracles, NotClosedTest
-    funcs = helper_oracles(ctx, 'path')
+    funcs = helper_oracles(ctx, 'path', all_methods_of='X12Path')
+    funcs.pop('self.is_child_path', None)
     g_ = ctx.cfg(fn)
     bad = []
+    from . import c17
     for root, child, want in (('/A/B', '/A/B', False), ('/A/B', '/A/B/C', True), ('/A/B', '/A/B/C/D', True), ('/A/B', '/A', False),
-                              ('/A/B', '/A/BB', False), ('/A/B', '/A/BB/C', False), ('/A/B', '/X/B/C', False), ('/A', '/A/B', True), ('/A/B/C', '/A/B', False)):
+                              ('/A/B', '/A/BB', False), ('/A/B', '/A/BB/C', False), ('/A/B', '/X/B/C', False), ('/A', '/A/B', True), ('/A/B/C', '/A/B', False),
+                              # (a loop id may spell like a segment id: the 997 has loops AK2 and AK3)
+                              ('/ST_LOOP/HEADER/AK2', '/ST_LOOP/HEADER/AK2/AK5', True), ('/ST_LOOP/HEADER/AK2', '/ST_LOOP/HEADER/AK2/AK3/AK4', True),
+                              ('/ST_LOOP/HEADER/AK2', '/ST_LOOP/HEADER/AK9', False)):
         try:
-            got = run_function(g_, fn, [None, child], funcs, env={'self.format()': root})
+            env_ = dict(c17.parse_path_fields(ctx, root) or {})
+            env_['self.format()'] = root
+            fx = dict(funcs)
+            fx['self.format'] = lambda root=root: root
+            fx['self.__repr__'] = lambda root=root: root
+            got = run_function(g_, fn, [None, child], fx, env=env_)
         except (NotClosedTest, A.NotClosed) as e:
             raise AnalysisError('path:X12Path.is_child_path cannot be decided for %s / %s: %s' % (root, child, e))
         if bool(got) != want:
